@@ -182,20 +182,69 @@ def boxed_option_members(dump):
     return res
 
 
-def unit_variants(dump):
-    """unit variants next to data-carrying ones: external -> set of names; adjacent -> [(tag, content, names)]"""
+def null_payload_branches(doc):
+    """the construct of finding F3, read from the schema wherever it occurs: branches of a oneOf/anyOf that are
+    a one-property object whose payload schema is {type: null}  -> external names {K};
+    a two-property object {t: single-valued string enum, c: {type: null}}  -> adjacent triples (t, c, V)"""
+    ext, adj = set(), set()
+
+    def is_null(ps):
+        ps = resolve(doc, ps)
+        return isinstance(ps, dict) and ps.get("type") == "null"
+
+    def const_str(ps):
+        ps = resolve(doc, ps)
+        if isinstance(ps, dict) and isinstance(ps.get("enum"), list) and len(ps["enum"]) == 1 and \
+                isinstance(ps["enum"][0], str):
+            return ps["enum"][0]
+        if isinstance(ps, dict) and isinstance(ps.get("const"), str):
+            return ps["const"]
+        return None
+
+    def walk(s, depth=0):
+        if depth > 40:
+            return
+        if isinstance(s, list):
+            for x in s:
+                walk(x, depth + 1)
+            return
+        if not isinstance(s, dict):
+            return
+        for kw in ("oneOf", "anyOf"):
+            for b in s.get(kw, []) if isinstance(s.get(kw), list) else []:
+                rb = resolve(doc, b)
+                props = rb.get("properties", {}) if isinstance(rb, dict) else {}
+                if len(props) == 1:
+                    (k, ps), = props.items()
+                    if is_null(ps):
+                        ext.add(k)
+                elif len(props) == 2:
+                    (k1, p1), (k2, p2) = props.items()
+                    for (tk, tp), (ck, cp) in (((k1, p1), (k2, p2)), ((k2, p2), (k1, p1))):
+                        if const_str(tp) is not None and is_null(cp):
+                            adj.add((tk, ck, const_str(tp)))
+        for x in s.values():
+            if isinstance(x, (dict, list)):
+                walk(x, depth + 1)
+    walk(doc)
+    return ext, adj
+
+
+def unit_variants(doc, dump):
+    """unit variants of externally / adjacently tagged enums IN THE DUMP whose schema branch is the null-payload
+    construct: external -> set of names; adjacent -> [(tag, content, names)]"""
+    sext, sadj = null_payload_branches(doc)
     ext, adj = set(), []
     for e in dump["entries"].values():
         if e.get("kind") != "enum":
             continue
-        ks = [v["details"]["k"] for v in e["variants"]]
         units = {v["raw"] for v in e["variants"] if v["details"]["k"] == "simple"}
-        if not units or all(k == "simple" for k in ks):
-            continue
         if e["tag"]["k"] == "external":
-            ext |= units
+            ext |= units & sext
         elif e["tag"]["k"] == "adjacent":
-            adj.append((e["tag"]["tag"], e["tag"]["content"], units))
+            names = {v for (t, c, v) in sadj if t == e["tag"]["tag"] and c == e["tag"]["content"]} & units
+            if names:
+                adj.append((e["tag"]["tag"], e["tag"]["content"], names))
     return ext, adj
 
 
@@ -263,8 +312,8 @@ def classify_violation(ctx, ex, it, kinds, w):
     """-> finding dict or None.  Classes are decided by re-evaluation, not by name:
     (F1 — null at Optional Box<Option<_>> members — is fixed by b9da3ef: its corpus witnesses are regression cases);
     F2: the definition is a oneOf rendered as an untagged enum and the output satisfies two or more branches;
-    F3: rewriting the unit-variant forms of externally / adjacently tagged enums that also have data-carrying
-        variants back to their null-payload form ({"V": null}, {tag: "V", content: null}) repairs the output."""
+    F3: rewriting the unit-variant forms of externally / adjacently tagged enums whose schema branch is the
+        null-payload construct (read from the schema, wherever it occurs) back to their null-payload form ({"V": null}, {tag: "V", content: null}) repairs the output."""
     doc = ex.docs[it["m"]]
     ref = {"$ref": "#/definitions/" + it["name"]}
     for f in ctx.findings_for():
@@ -273,7 +322,7 @@ def classify_violation(ctx, ex, it, kinds, w):
                 set(kinds) <= {"invalid-output", "declared-data-lost"}:
             # F3: rewriting the unit-variant strings of mixed externally tagged enums back to {"V": null} repairs
             # both validity and containment
-            ext, adj = unit_variants(ex.dumps[it["m"]])
+            ext, adj = unit_variants(doc, ex.dumps[it["m"]])
             rep = unit_forms_to_null_payload(w, ext, adj)
             if not exact_eq(rep, w) and contained(prune(restrict(doc, ref, it["v"])), prune(rep)) and \
                     oracle.classify([(doc, [(ref, rep)])])[0][0] is True:
